@@ -24,9 +24,10 @@ func c20handler(idx int) {
 	} else {
 		c := smallCaps()
 		c.denom = 6
-		if idx == hReceiveMessage || idx == hReplaceMessage || idx == hReplaceDepositForBurn {
+		if (idx == hReceiveMessage || idx == hReplaceMessage || idx == hReplaceDepositForBurn) && verifrt.Tier() == 1 {
 			h.setupUserState(maxSigs, c)
 		} else {
+			// quick tier: one attester; the attestation may still hold up to two signatures' worth of bytes
 			h.setupUserState(1, c)
 		}
 		h.assumeThresholdInvariant()
